@@ -350,6 +350,27 @@ class Weave:
         return stripped == ''.join(opieces)
 
 
+def _stmt_start(toks, body, off):
+    """char offset of the start of the statement (inside the fn body opened by token `body`) that contains offset `off`"""
+    ti = next((k for k in range(body + 1, toks[body].match) if toks[k].start >= off), None)
+    if ti is None:
+        return off
+    j = ti - 1
+    while j > body:
+        t = toks[j]
+        if t.kind == 'punct' and t.text in (';', '{'):
+            break
+        if t.kind == 'punct' and t.text in (')', ']', '}') and t.match is not None and t.match < j:
+            if t.text == '}':
+                nxt = toks[j + 1].text if j + 1 < len(toks) else ''
+                if nxt not in ('else', '.', '?', ',', ')', ']', '==', '!=', '&&', '||', '+', '-', '*', '/', 'as'):
+                    break       # a block statement ended here
+            j = t.match - 1
+            continue
+        j -= 1
+    return toks[j + 1].start
+
+
 def _apply_fn(src, w, op, fn, modname):
     toks = src.toks
     text = src.text
@@ -438,6 +459,10 @@ def _apply_fn(src, w, op, fn, modname):
                 continue
             raise AnchorLost(f'{src.path}: needle `{needle}` #{nth} not in `{op["path"]}`')
         off = b_lo + occ[nth] + (0 if 'before' in pr else len(needle))
+        if 'before' in pr:
+            # a ghost block is a statement: move back to the start of the statement that contains the needle (the needle may
+            # sit in the middle of one after a refactoring, e.g. `match NEEDLE(..) {`)
+            off = _stmt_start(toks, body, off)
         w.insert(off, ' ' + pr['text'].strip() + ' ', f'{label}#proof', 'W6')
     if op.get('w9_mut_self'):
         # W9: `mut self` receiver (unsupported by Verus) => `self` + `let mut self_w9 = self;` and every
